@@ -6,7 +6,7 @@ own idiom; every fact below is a necessary condition checked on the flow-sensiti
 A form that is not recognised is reported as undecided (exit 2), never as a violation."""
 import ast
 
-from . import astq, symidx
+from . import astq, symidx, seqdom
 from .program import rel, AnalysisError
 from .poly import P
 
@@ -121,6 +121,22 @@ def is_const(e, v):
     return isinstance(e, ast.Constant) and e.value == v
 
 
+def _verdict(actual, expected):
+    """(ok, text): None if the computed order contains an unrecognised part, else equality of the canonical forms"""
+    why = seqdom.opaque(seqdom.normalise(actual))
+    got, want = seqdom.canon(actual), seqdom.canon(expected)
+    if got == want:
+        return True, got
+    if why:
+        return None, f"order not fully recognised ({why[0]}): {got}"
+    return False, f"{got}  (required: {want})"
+
+
+def _names_abstracted(t):
+    """string elements replaced by one placeholder: only their number and position matter for the order"""
+    return seqdom.tmap(t, lambda leaf: ("ex", "name") if leaf[0] in ("fmt", "ex") else leaf)
+
+
 def merge(prog, run, rule):
     fi = prog.func("functions.gen.merge_mode_shapes")
     f = rel(prog.mods[fi.mod].path)
@@ -129,85 +145,44 @@ def merge(prog, run, rule):
 
     def ob(role, ok, detail, node=None, w=""):
         run.ob(rule, fi.qual, role, ok, detail, witness=w or detail[:90], file=f, node=node)
-    # the store into the returned array
-    rets = [n for n in ast.walk(fi.node) if isinstance(n, ast.Return) and isinstance(n.value, ast.Name)]
-    if not rets:
-        return ob("merge: return", None, "returned array not found")
-    out = rets[-1].value.id
-    stores = [n for n in ast.walk(fi.node) if isinstance(n, ast.Assign) and isinstance(n.targets[0], ast.Subscript) and isinstance(n.targets[0].value, ast.Name) and n.targets[0].value.id == out]
+    it = seqdom.Interp(prog, roles={plist: ("data", 0, 2), pref: ("refs",)})
+    rets = it.run(fi)
+    out = [astq.src(n.value) for v, n in rets if isinstance(n.value, ast.Name)]
+    stores = [st for st in it.stores if st[0] in out]
+    role = "merge: rows = [first setup's reference rows in listed order ; every setup's roving rows (own reference list removed, ascending) in setup order]"
     if not stores:
-        return ob("merge: store", None, "store of the merged mode into the returned array not found")
-    st = stores[-1]
-    if not isinstance(st.value, ast.Name):
-        return ob("merge: accumulator", None, "merged mode is not held in a variable")
-    acc = st.value.id
-    # assignments to the accumulator: initial one (outside the setup loop) and the loop update
-    pm = astq.parent_map(fi.node)
-    assigns = [n for n in ast.walk(fi.node) if isinstance(n, ast.Assign) and len(n.targets) == 1 and isinstance(n.targets[0], ast.Name) and n.targets[0].id == acc]
-    init = [n for n in assigns if not any(isinstance(x, ast.Name) and x.id == acc for x in ast.walk(n.value))]
-    upd = [n for n in assigns if any(isinstance(x, ast.Name) and x.id == acc for x in ast.walk(n.value))]
-    if len(init) != 1 or len(upd) != 1:
-        return ob("merge: accumulator", None, f"{len(init)} initialisations / {len(upd)} updates of the merged vector")
-    x0 = astq.expr_at(fi, init[0], init[0].value)
-    parts = _cat_parts(prog, fi, x0)
-    ok0 = None
-    why = astq.src(x0, 100)
-    if parts and len(parts) == 2:
-        a = _ref_rows(prog, fi, parts[0], plist, pref)
-        b = _rov_rows(prog, fi, parts[1], plist, pref)
-        if a is not None and b is not None:
-            ok0 = all(is_const(z, 0) for z in (a[0], a[1], b[0], b[1])) and KIND.get(id(parts[0])) == "listed"
-            if KIND.get(id(parts[0])) != "listed":
-                why += " (reference rows taken in ascending channel order, not in the listed order)"
-        elif a is None and _rov_rows(prog, fi, parts[0], plist, pref) is not None and _ref_rows(prog, fi, parts[1], plist, pref) is not None:
-            ok0 = False
-            why += " (roving rows placed before the reference rows)"
-        elif a is not None and b is None and _setup_vec(parts[1], plist) is not None:
-            ok0 = False
-            why += " (the WHOLE vector is appended: the reference rows appear twice)"
-    ob("merge: first setup = [its reference rows in listed order ; its roving rows]", ok0, f"`{why}`", init[0])
-    loop = astq.enclosing(pm, upd[0], (ast.For,))
-    x1 = upd[0].value
-    parts = _cat_parts(prog, fi, x1)
-    ok1 = None
-    why = astq.src(x1, 100)
-    if parts and len(parts) == 2 and loop is not None and isinstance(loop.target, ast.Name):
-        first_is_acc = isinstance(parts[0], ast.Name) and parts[0].id == acc
-        second_is_acc = isinstance(parts[1], ast.Name) and parts[1].id == acc
-        add = astq.expr_at(fi, upd[0], _strip_scalar(parts[1] if first_is_acc else parts[0]))
-        add = _strip_scalar(add)
-        b = _rov_rows(prog, fi, add, plist, pref)
-        i = loop.target.id
-        if b is not None and (first_is_acc or second_is_acc):
-            ok1 = first_is_acc and all(isinstance(z, ast.Name) and z.id == i for z in b)
-            if not first_is_acc:
-                why += " (new rows are PREPENDED)"
-            elif not ok1:
-                why += f" (vector of setup `{astq.src(b[0])}` with the reference list of setup `{astq.src(b[1])}`)"
-    ob("merge: later setups append their own roving rows (own reference list removed)", ok1, f"`{why}`", upd[0])
-    # the scale factor pairs reference sensor k of the first setup with reference sensor k of setup i: both in LISTED order
-    msf = [c for c in ast.walk(fi.node) if isinstance(c, ast.Call) and astq.callee_name(prog, fi, c).endswith(".MSF") and len(c.args) == 2]
-    if not msf:
-        ob("merge: scale factor computed on the reference rows", None, "no MSF(...) call found")
-    for c in msf:
-        args = [astq.expr_at(fi, c, a) for a in c.args]
-        rr = [_ref_rows(prog, fi, a, plist, pref) for a in args]
-        if any(r is None for r in rr):
-            ob("merge: scale factor pairs reference sensor k of setup 0 with reference sensor k of setup i", None,
-               f"MSF arguments `{astq.src(args[0], 50)}`, `{astq.src(args[1], 50)}` are not recognised reference-row selections", c)
+        # the merged array may be assembled functionally and returned directly
+        seqs = [(v, n) for v, n in rets if isinstance(v, seqdom.Sq)]
+        if not seqs:
+            return ob(role, None, "store of the merged mode into the returned array not found")
+        stores = [(None, None, v, n, []) for v, n in seqs]
+    for name, idx, val, node, loops in stores:
+        if not isinstance(val, (seqdom.Sq, seqdom.Vec)):
+            ob(role, None, f"stored value `{astq.src(node, 60)}` is not a recognised row sequence", node)
             continue
-        kinds = [KIND.get(id(a)) for a in args]
-        setups = [astq.src(r[0]) + "/" + astq.src(r[1]) for r in rr]
-        own = all(astq.dump(r[0]) == astq.dump(r[1]) for r in rr)
-        has0 = any(is_const(r[0], 0) for r in rr)
-        okp = kinds == ["listed", "listed"] and own and has0
-        ob("merge: scale factor pairs reference sensor k of setup 0 with reference sensor k of setup i", okp,
-           f"MSF on reference rows of setups {setups}, order kinds {kinds}" + ("" if okp else " - sensors are paired in different orders (or with another setup's reference list)"), c)
-    if loop is not None:
-        se = symidx.SymEval(prog, fi)
-        ra = symidx.range_args(se, symidx.is_range(prog, fi, loop.iter)) if symidx.is_range(prog, fi, loop.iter) is not None else None
-        okl = ra is not None and ra[0] == P.c(1) and ra[2] == P.c(1) and "len(" in repr(ra[1])
-        ob("merge: setups 1..N-1 in ascending order", okl, f"range({', '.join(map(repr, ra)) if ra else astq.src(loop.iter)})", loop)
+        ok, txt = _verdict(it.as_seq(val), seqdom.global_order())
+        ob(role, ok, txt, node, w=txt[:120])
+    # the scale factor pairs reference sensor k of the first setup with reference sensor k of setup i: both in LISTED order
+    msf = [c for c in it.calls if c[0].endswith(".MSF")]
+    prole = "merge: scale factor pairs reference sensor k of setup 0 with reference sensor k of setup i"
+    if not msf:
+        ob(prole, None, "no MSF(...) call found")
+    for q, bound, node, loops in msf:
+        vals = [bound.get("phi_1"), bound.get("phi_2")]
+        if any(not isinstance(v, (seqdom.Sq, seqdom.Vec)) for v in vals) or not loops:
+            ob(prole, None, f"MSF arguments of `{astq.src(node, 60)}` are not recognised reference-row selections", node)
+            continue
+        lv = loops[-1][1]
+        terms = [seqdom.normalise(it.as_seq(v)) for v in vals]
+        if any(seqdom.opaque(t) for t in terms):
+            ob(prole, None, f"MSF arguments not fully recognised: {seqdom.canon(terms[0])} / {seqdom.canon(terms[1])}", node)
+            continue
+        P_ = seqdom.P
+        cands = {"own": seqdom.canon(seqdom.listed(P_.s(lv))), "first": seqdom.canon(seqdom.listed(0))}
+        got = [seqdom.canon(t) for t in terms]
+        okp = sorted(got) == sorted(cands.values())
+        ob(prole, okp, f"MSF on `{got[0]}` and `{got[1]}`" + ("" if okp else f" - required: `{cands['own']}` with `{cands['first']}` (same listed order, each setup's own reference list)").replace(lv, "i"), node,
+           w=(got[0] + " | " + got[1]).replace(lv, "i")[:120])
 
 
 def flatten(prog, run, rule):
@@ -217,46 +192,26 @@ def flatten(prog, run, rule):
     pn, pr = pos[0], pos[1]
 
     def ob(role, ok, detail, node=None):
-        run.ob(rule, fi.qual, role, ok, detail, witness=detail[:90], file=f, node=node)
-    apps = [n for n in ast.walk(fi.node) if isinstance(n, ast.Call) and isinstance(n.func, ast.Attribute) and n.func.attr == "append" and len(n.args) == 1]
-    pm = astq.parent_map(fi.node)
-    refapp = [a for a in apps if isinstance(a.args[0], ast.JoinedStr) and "REF" in astq.src(a.args[0])]
-    rovapp = [a for a in apps if isinstance(a.args[0], ast.Subscript)]
-    if len(refapp) != 1 or len(rovapp) != 1:
-        return ob("flatten: appends", None, f"{len(refapp)} REF-name appends / {len(rovapp)} roving-name appends")
-    ra, rv = refapp[0], rovapp[0]
-    # REF loop: range(len(ref_ind[0]))
-    l0 = astq.enclosing(pm, ra, (ast.For,))
-    se = symidx.SymEval(prog, fi)
-    rg = symidx.range_args(se, symidx.is_range(prog, fi, l0.iter)) if l0 is not None and symidx.is_range(prog, fi, l0.iter) is not None else None
-    okk = rg is not None and rg[0] == P.c(0) and repr(rg[1]).replace(" ", "") == f"len({pr}[0])"
-    ob("flatten: one REFn name per reference sensor of the FIRST setup", okk, f"range({', '.join(map(repr, rg)) if rg else '?'})", l0)
-    # nested loops
-    lj = astq.enclosing(pm, rv, (ast.For,))
-    li = astq.enclosing(pm, lj, (ast.For,)) if lj is not None else None
-    if lj is None or li is None or not isinstance(lj.target, ast.Name) or not isinstance(li.target, ast.Name):
-        return ob("flatten: nested loops", None, "setup / name loops not found")
-    i, j = li.target.id, lj.target.id
-    ri = symidx.range_args(se, symidx.is_range(prog, fi, li.iter)) if symidx.is_range(prog, fi, li.iter) is not None else None
-    rj = symidx.range_args(se, symidx.is_range(prog, fi, lj.iter)) if symidx.is_range(prog, fi, lj.iter) is not None else None
-    oki = ri is not None and ri[0] == P.c(0) and ri[2] == P.c(1) and "len(" in repr(ri[1])
-    okj = rj is not None and rj[0] == P.c(0) and rj[2] == P.c(1) and repr(rj[1]).replace(" ", "") == f"len({pn}[{i}])"
-    ob("flatten: setups in ascending order, names of a setup in ascending order", oki and okj, f"outer range({', '.join(map(repr, ri)) if ri else '?'}), inner range({', '.join(map(repr, rj)) if rj else '?'})", li)
-    v = rv.args[0]
-    okv = astq.src(v).replace(" ", "") == f"{pn}[{i}][{j}]"
-    ob("flatten: appended name is name j of setup i", okv, f"`{astq.src(v)}`", rv)
-    g = astq.enclosing(pm, rv, (ast.If,))
-    okg = g is not None and isinstance(g.test, ast.Compare) and isinstance(g.test.ops[0], ast.NotIn) and astq.src(g.test.left) == j \
-        and astq.src(g.test.comparators[0]).replace(" ", "") == f"{pr}[{i}]" and astq.branch_of(pm, rv, g) == "body"
-    ob("flatten: names at the setup's OWN reference indices are skipped", bool(okg), f"guard `{astq.src(g.test) if g is not None else None}`", g or rv)
-    # REF names come first
-    top_ref = l0
-    while pm.get(top_ref) is not None and not isinstance(pm.get(top_ref), (ast.If, ast.FunctionDef)):
-        top_ref = pm[top_ref]
-    blk = pm.get(l0)
-    body = getattr(blk, "body", [])
-    okorder = l0 in body and li in body and body.index(l0) < body.index(li)
-    ob("flatten: reference names precede the roving names", okorder, "REF loop before the setup loop" if okorder else "order of the two loops changed", l0)
+        run.ob(rule, fi.qual, role, ok, detail, witness=detail[:120], file=f, node=node)
+    it = seqdom.Interp(prog, roles={pn: ("data", 0, 1), pr: ("refs",)}, types={pn: ("list", "list")})
+    rets = it.run(fi)
+    role = "flatten: names = [one REFk per reference sensor of the first setup ; every setup's non-reference names (ascending) in setup order]"
+    seqs = [(v, n) for v, n in rets if isinstance(v, seqdom.Sq)]
+    if not seqs:
+        return ob(role, None, "returned name list of the multi-setup branch is not a recognised sequence")
+    P_ = seqdom.P
+    refpart = ("for", "v8", P_.c(0), P_.s("r[0]"), ("ex", "name"))
+    for v, n in seqs:
+        ok, txt = _verdict(_names_abstracted(v.t), _names_abstracted(seqdom.global_order(first=refpart)))
+        ob(role, ok, txt, n)
+        # the labels REF1..REFk
+        t = seqdom.normalise(v.t)
+        first = t[1][0] if t[0] == "cat" and t[1] else t
+        if first[0] == "for" and first[4][0] == "fmt":
+            lab = seqdom.show(first[4]).replace(first[1], "k")
+            ob("flatten: reference names are REF1 .. REFk", lab == "'REF{1 + k}'", f"label {lab} for k = 0 .. {first[3]!r} - 1", n)
+        else:
+            ob("flatten: reference names are REF1 .. REFk", None, f"label form `{seqdom.show(first)[:60]}` not recognised", n)
 
 
 def pre(prog, run, rule):
@@ -266,65 +221,25 @@ def pre(prog, run, rule):
     pd_, pr = pos[0], pos[1]
 
     def ob(role, ok, detail, node=None):
-        run.ob(rule, fi.qual, role, ok, detail, witness=detail[:90], file=f, node=node)
-    dicts = [n for n in ast.walk(fi.node) if isinstance(n, ast.Dict) and {k.value for k in n.keys if isinstance(k, ast.Constant)} == {"ref", "mov"}]
-    if not dicts:
-        return ob("split: dict", None, "{'ref':..., 'mov':...} construction not found")
-    d = dicts[0]
-    pm = astq.parent_map(fi.node)
-    loop = astq.enclosing(pm, d, (ast.For,))
-    if loop is None or not isinstance(loop.target, ast.Name):
-        return ob("split: loop", None, "loop over the datasets not found")
-    i = loop.target.id
-    se = symidx.SymEval(prog, fi)
-    rg = symidx.range_args(se, symidx.is_range(prog, fi, loop.iter)) if symidx.is_range(prog, fi, loop.iter) is not None else None
-    ob("split: datasets in ascending order", rg is not None and rg[0] == P.c(0) and rg[2] == P.c(1), f"range({', '.join(map(repr, rg)) if rg else '?'})", loop)
-    vals = {k.value: v for k, v in zip(d.keys, d.values)}
-    # mov_id: list(range(n_sens)) with the reference indices removed
-    env = astq.env_at(fi.node.body, d)
-    for key in ("ref", "mov"):
-        x = astq.expr_at(fi, d, vals[key])
-        subs = [s for s in ast.walk(x) if isinstance(s, ast.Subscript) and len(astq.index_elts(s)) == 2 and astq.is_full_slice(astq.index_elts(s)[0])
-                and astq.src(s.value).replace(" ", "") == f"{pd_}[{i}]"]
-        dels = [c for c in ast.walk(x) if isinstance(c, ast.Call) and astq.callee_name(prog, fi, c) == "numpy.delete" and len(c.args) >= 2
-                and astq.src(c.args[0]).replace(" ", "") == f"{pd_}[{i}]"]
-        if key == "mov" and dels and not subs:
-            c = dels[0]
-            ax = astq.kwarg(c, "axis", 2)
-            okd = astq.src(c.args[1]).replace(" ", "") == f"{pr}[{i}]" and isinstance(ax, ast.Constant) and ax.value == 1
-            ob("split: 'mov' = all remaining columns in ascending order (every reference index of THIS setup removed)", okd, f"`{astq.src(c, 60)}`", d)
+        run.ob(rule, fi.qual, role, ok, detail, witness=detail[:120], file=f, node=node)
+    it = seqdom.Interp(prog, roles={pd_: ("data", 1, 2), pr: ("refs",)})
+    rets = it.run(fi)
+    P_ = seqdom.P
+    i = P_.s("v7")
+    for key, want, what in (("ref", seqdom.listed(i), "split: 'ref' = channels at the setup's reference indices, in listed order"),
+                            ("mov", seqdom.roving(i), "split: 'mov' = all remaining channels in ascending order (every reference index of THIS setup removed)")):
+        seqs = [(v, n) for v, n in rets if isinstance(v, seqdom.Sq)]
+        if not seqs:
+            ob(what, None, "returned list of per-setup dicts is not a recognised sequence")
             continue
-        if not subs:
-            ob(f"split: '{key}' columns", None, f"`{astq.src(x, 80)}`: column selection from dataset i not found", d)
-            continue
-        col = astq.index_elts(subs[0])[1]
-        if key == "ref":
-            ok = astq.src(col).replace(" ", "") == f"{pr}[{i}]"
-            ob("split: 'ref' = columns at the setup's reference indices, in listed order", ok, f"columns `{astq.src(col)}`", d)
-        else:
-            # the column index variable must be list(range(n)) minus remove(ref_id[..]) for every reference
-            nm = col.id if isinstance(col, ast.Name) else None
-            rm = [c for c in ast.walk(loop) if isinstance(c, ast.Call) and isinstance(c.func, ast.Attribute) and c.func.attr == "remove"
-                  and isinstance(c.func.value, ast.Name) and c.func.value.id == nm]
-            init = [n for n in ast.walk(loop) if isinstance(n, ast.Assign) and isinstance(n.targets[0], ast.Name) and n.targets[0].id == nm]
-            ok_init = bool(init) and astq.src(init[0].value).replace(" ", "").startswith("list(range(")
-            ok_rm = False
-            if rm:
-                a = astq.expr_at(fi, rm[0], rm[0].args[0])
-                rl = astq.enclosing(pm, rm[0], (ast.For,))
-                ok_rm = astq.src(a).replace(" ", "").startswith(f"{pr}[{i}][") and rl is not None and rl is not loop
-                if ok_rm:
-                    rr = symidx.range_args(se, symidx.is_range(prog, fi, rl.iter)) if symidx.is_range(prog, fi, rl.iter) is not None else None
-                    ok_rm = rr is not None and rr[0] == P.c(0) and repr(rr[1]).replace(" ", "") in (f"len({pr}[{i}])",)
-            # alternative idiom: [j for j in range(n) if j not in reflist[i]]
-            if not (ok_init and ok_rm) and nm is not None and init:
-                v = init[0].value
-                if isinstance(v, ast.ListComp) and v.generators[0].ifs and "not in" in astq.src(v.generators[0].ifs[0]) and f"{pr}[{i}]" in astq.src(v.generators[0].ifs[0]).replace(" ", ""):
-                    ok_init = ok_rm = True
-            ob("split: 'mov' = all remaining columns in ascending order (every reference index of THIS setup removed)", ok_init and ok_rm,
-               f"index list `{nm}` = {astq.src(init[0].value, 40) if init else '?'}, removals: {astq.src(rm[0], 50) if rm else 'none'}", d)
-    apps = [c for c in ast.walk(loop) if isinstance(c, ast.Call) and isinstance(c.func, ast.Attribute) and c.func.attr == "append" and any(x is d for x in ast.walk(c))]
-    ob("split: one dict per dataset appended in loop order", bool(apps), "append of the dict inside the loop" if apps else "dict not appended", d)
+        for v, n in seqs:
+            t = seqdom.normalise(v.t)
+            if not (t[0] == "for" and t[4][0] == "dct" and key in dict(t[4][1])):
+                ob(what, None, f"returned value `{seqdom.canon(t)[:80]}` is not one {{'ref', 'mov'}} dict per dataset", n)
+                continue
+            sel = ("for", t[1], t[2], t[3], dict(t[4][1])[key])
+            ok, txt = _verdict(sel, ("for", "v7", P_.c(0), P_.s("N"), want))
+            ob(what, ok, txt, n)
     # the split is re-applied with the SAME reference lists after every preprocessing step: it must not modify its arguments
     from .props.C15 import alias_effects
     eff, alias = alias_effects(prog, fi)
